@@ -214,6 +214,12 @@ class Classifier:
         if callee is not None and self.summaries is not None:
             ret = self.summaries(callee)
             return self.instantiate(ret, callee, e)
+        if isinstance(f, ast.Name) and (f.id in self.env or f.id in self.assigned or f.id in self.func.params):
+            # a locally bound callable (an operation taken from a list): it returns new storage or one of its arguments
+            out = FRESH
+            for a in list(e.args) + [k.value for k in e.keywords]:
+                out = join(out, self.classify(a))
+            return out
         return UNKNOWN
 
     def resolve(self, e):
